@@ -1019,6 +1019,9 @@ func hostileString2(rng *ev.Rand, usedLang *string) (string, string) {
 		// correctly checksummed, data not a whole number of bytes / empty data
 		ns := nets()
 		d := make([]byte, rng.Range(0, 60))
+		if rng.Chance(1, 3) {
+			d = make([]byte, rng.Intn(3)) // no data at all, a version without a program
+		}
 		for i := range d {
 			d[i] = byte(rng.Intn(32))
 		}
